@@ -195,6 +195,7 @@ var (
 	errUDPMuxDisabled                = errors.New("UDPMux is not enabled")
 	errUnknownRole                   = errors.New("unknown role")
 	errWrite                         = errors.New("failed to write")
+	errStreamingPacketTooLarge       = errors.New("packet exceeds the 16-bit RFC 4571 length field")
 	errWriteSTUNMessage              = errors.New("failed to send STUN message")
 	errWriteSTUNMessageToIceConn     = errors.New("failed to write STUN message to ICE connection")
 	errXORMappedAddrTimeout          = errors.New("timeout while waiting for XORMappedAddr")
